@@ -197,3 +197,94 @@ Proof.
       * intros H x [<-|Hx] Hid; [rewrite <- eligible_b_iff, El; discriminate|apply H; assumption].
       * intros H x Hx. apply H. right; exact Hx.
 Qed.
+
+(* ------------------------------------------------------------------ the executable spec IS the spec *)
+Lemma load_class_nz ns now sp f : load_class ns now sp f <> 0.
+Proof.
+  unfold load_class. destruct f as [|[| |d] sg]; try discriminate.
+  destruct (_ && _ && _); [|discriminate]. destruct (sp_kind sp), sg; discriminate.
+Qed.
+
+Lemma items_class_nz ns now items : items_class ns now items <> 0.
+Proof. unfold items_class. destruct (find _ items); [apply load_class_nz|discriminate]. Qed.
+
+Lemma query_class_nz w seen q a : query_class w seen q a <> 0.
+Proof.
+  unfold query_class.
+  repeat match goal with |- context [if ?c then _ else _] => destruct c; try discriminate end;
+    destruct q; try discriminate;
+    repeat match goal with |- context [if ?c then _ else _] => destruct c; try discriminate end.
+Qed.
+
+Lemma check_spec h : forall w seen obs, check w seen h obs = 0 <-> spec w h obs.
+Proof.
+  induction h as [|o r IH]; intros w seen obs.
+  - cbn [check spec]. destruct obs; split; congruence.
+  - destruct o as [ns sp f|ns items|dt|tbl|q]; cbn [check spec].
+    + destruct obs as [|a obs']; [split; [discriminate|contradiction]|].
+      destruct a; try (split; [discriminate|contradiction]). destruct ok.
+      * destruct (ref_load1 ns (r_now w) (r_srcs w) sp f) as [s|].
+        -- rewrite IH. split; [intros H; exists s; auto|intros [s' [E H]]; inversion E; subst; exact H].
+        -- split; [intros H; exfalso; eapply load_class_nz; eauto|intros [s' [E _]]; discriminate].
+      * apply IH.
+    + destruct obs as [|a obs']; [split; [discriminate|contradiction]|].
+      destruct a; try (split; [discriminate|contradiction]). destruct ok.
+      * destruct (ref_imp ns (r_now w) [] items) as [s|].
+        -- rewrite IH. split; [intros H; exists s; auto|intros [s' [E H]]; inversion E; subst; exact H].
+        -- split; [intros H; exfalso; eapply items_class_nz; eauto|intros [s' [E _]]; discriminate].
+      * apply IH.
+    + apply IH.
+    + apply IH.
+    + destruct obs as [|a obs']; [split; [discriminate|contradiction]|].
+      destruct (answer_eqb (norm a) (norm (snd (ref_answer (r_now w) (r_srv w) (r_srcs w) q)))) eqn:E.
+      * apply answer_eqb_eq in E. rewrite IH. tauto.
+      * split; [intros H; exfalso; eapply query_class_nz; eauto|].
+        intros [H _]. apply answer_eqb_eq in H. congruence.
+Qed.
+
+Lemma spec_b_iff w h obs : spec_b w h obs = true <-> spec w h obs.
+Proof. unfold spec_b. rewrite Nat.eqb_eq. apply check_spec. Qed.
+
+(* ------------------------------------------------------------------ more dictionary facts *)
+Lemma lookup_upsert_same {A} k (v : A) l : lookup k (upsert k v l) = Some v.
+Proof.
+  induction l as [|[k' v'] r IH]; cbn [upsert lookup].
+  - rewrite String.eqb_refl. reflexivity.
+  - destruct (String.eqb k k') eqn:E; cbn [lookup]; [rewrite String.eqb_refl; reflexivity|rewrite E; exact IH].
+Qed.
+
+Lemma lookup_upsert_other {A} k k2 (v : A) l : k2 <> k -> lookup k2 (upsert k v l) = lookup k2 l.
+Proof.
+  intros Hne. induction l as [|[k' v'] r IH]; cbn [upsert lookup].
+  - destruct (String.eqb k2 k) eqn:E; [apply String.eqb_eq in E; contradiction|reflexivity].
+  - destruct (String.eqb k k') eqn:E; cbn [lookup].
+    + apply String.eqb_eq in E. subst k'.
+      destruct (String.eqb k2 k) eqn:E2; [apply String.eqb_eq in E2; contradiction|reflexivity].
+    + destruct (String.eqb k2 k'); [reflexivity|exact IH].
+Qed.
+
+Lemma has_key_upsert {A} k k2 (v : A) l : has_key k2 (upsert k v l) = String.eqb k2 k || has_key k2 l.
+Proof.
+  unfold has_key. destruct (String.eqb k2 k) eqn:E.
+  - apply String.eqb_eq in E. subst. rewrite lookup_upsert_same. reflexivity.
+  - apply String.eqb_neq in E. rewrite (lookup_upsert_other _ _ _ _ E). reflexivity.
+Qed.
+
+Lemma lookup_none_key {A} k (l : list (string * A)) kv : lookup k l = None -> In kv l -> fst kv <> k.
+Proof.
+  induction l as [|[k' v'] r IH]; cbn [lookup]; [intros _ []|].
+  destruct (String.eqb k k') eqn:E; [discriminate|]. intros H [<-|Hin].
+  - cbn. apply String.eqb_neq in E. congruence.
+  - apply IH; assumption.
+Qed.
+
+Lemma lookup_some_haskey {A} k (l : list (string * A)) v : lookup k l = Some v -> has_key k l = true.
+Proof. unfold has_key. intros ->. reflexivity. Qed.
+
+Lemma has_key_remove {A} k k2 (l : list (string * A)) : has_key k2 (remove_key k l) = true -> has_key k2 l = true.
+Proof.
+  destruct (String.eqb k2 k) eqn:E.
+  - apply String.eqb_eq in E. subst. unfold has_key. rewrite lookup_remove_same. discriminate.
+  - apply String.eqb_neq in E. unfold has_key. rewrite (lookup_remove_other _ _ _ E). auto.
+Qed.
+
